@@ -93,6 +93,7 @@ def _main(a, prop, seed, t0):
             if r['result'] == 'unsat': canary_bad.append(name)
             continue
         st = by_name.setdefault(name, dict(instances=0, proved=0, results=[], models=[]))
+        if ob.extra and r['result'] != 'unsat': st.setdefault('details', []).append(str(ob.extra)[:2000])
         st['instances'] += 1
         if r['result'] == 'unsat':
             st['proved'] += 1
@@ -155,7 +156,7 @@ def _main(a, prop, seed, t0):
                 continue
             os.makedirs(os.path.dirname(rp), exist_ok=True)
             json.dump(dict(property=prop, kind='obligation-not-discharged', obligation=n, solver_results=st['results'],
-                           solver_log=st.get('logs'), model=(st['models'][0] if st['models'] else None),
+                           solver_log=st.get('logs'), model=(st['models'][0] if st['models'] else None), flow_or_detail=st.get('details'),
                            runtime_inputs_tried=(rt['coverage']['evaluations'] if rt else 0),
                            note='obligation was discharged on the unchanged tree (baseline) and is not discharged now; no failing input found'),
                       open(rp, 'w'), indent=1)
